@@ -433,7 +433,7 @@ func (Prop) Run(p *core.Plan) *core.Result {
 			simrt.SetBudget(10000000) // per task
 			pv, blown := core.Guard(func() { solo[i] = shSolo.doOps(ops) })
 			if blown {
-				return "solo reference exceeded the step budget"
+				return "SKIP"
 			}
 			if pv != nil {
 				solo[i] = []string{fmt.Sprintf("PANIC %v", pv)}
@@ -452,20 +452,28 @@ func (Prop) Run(p *core.Plan) *core.Result {
 		rs = simrt.RunTasks(fns)
 	}
 	concBlown := false
+	soloSkipped := false
 	if w.ConcFirst {
-		simrt.SetBudget(10000000 * uint64(len(w.Tasks)))
+		simrt.SetBudget(10 * 10000000 * uint64(len(w.Tasks))) // ten times the solo budget
 		runConc()
 		concBlown = world.Blown
-		if msg := runSolo(); msg != "" {
+		if msg := runSolo(); msg == "SKIP" {
+			soloSkipped = true
+		} else if msg != "" {
 			simrt.End()
 			return &core.Result{Infra: msg}
 		}
 	} else {
-		if msg := runSolo(); msg != "" {
+		if msg := runSolo(); msg == "SKIP" {
+			// the generated programs are too large for the solo budget: the plan decides nothing
+			simrt.End()
+			res.Probes["plans_skipped_reference_over_budget"]++
+			return res
+		} else if msg != "" {
 			simrt.End()
 			return &core.Result{Infra: msg}
 		}
-		simrt.SetBudget(10000000 * uint64(len(w.Tasks)))
+		simrt.SetBudget(10 * 10000000 * uint64(len(w.Tasks))) // ten times the solo budget
 		runConc()
 		concBlown = world.Blown
 	}
@@ -484,6 +492,10 @@ func (Prop) Run(p *core.Plan) *core.Result {
 		res.Violation = &core.Violation{Class: "C16/data-race", Key: "race:" + sig,
 			Detail: fmt.Sprintf("the race detector reported %d race(s) in this schedule; first report:\n%s", races, clip(first))}
 		res.NonTrivial = true
+		return res
+	}
+	if soloSkipped {
+		res.Probes["plans_skipped_reference_over_budget"]++
 		return res
 	}
 	// (3) panics, (2) results
